@@ -206,11 +206,18 @@ def validateBusName(n):
             raise Exception('Name exceeds maximum length of 255')
         if n[0] == '.':
             raise Exception('Names may not begin with a "."')
+        if n[-1] == '.':
+            raise Exception('Names may not end with a "."')
         if n[0].isdigit():
             raise Exception('Names may not begin with a digit')
         if bus_re.search(n):
             raise Exception(
                 'Names contains a character outside the set [A-Za-z0-9_.\\-:]')
+        if ':' in n[1:]:
+            raise Exception(
+                '":" is only allowed as the first character of a unique name')
+        if n.startswith(':.'):
+            raise Exception('Components of a unique name may not be empty')
         if not n[0] == ':' and dot_digit_re.search(n):
             raise Exception(
                 'No coponents of an interface name may begin with a digit')
